@@ -60,7 +60,7 @@ func (e *End) read(p []byte) (int, error) {
 		}
 	} else {
 		s.Yield("read?", e.rd.name)
-		for len(e.rd.buf) == 0 && !e.rd.closed {
+		for len(e.rd.buf) == 0 && !e.rd.closed && !s.Over() {
 			s.Wait(e.rd, "readwait")
 		}
 	}
